@@ -184,6 +184,15 @@ func (r *Rep) Finish(verifDir string, known []Known, seed int64) int {
 	sort.SliceStable(r.Floors, func(i, j int) bool { return r.Floors[i].Rule < r.Floors[j].Rule })
 	wall := time.Since(r.Start).Seconds()
 
+	if r.Assume == nil {
+		r.Assume = []string{}
+	}
+	if r.Trusted == nil {
+		r.Trusted = []string{}
+	}
+	if r.Notes == nil {
+		r.Notes = []string{}
+	}
 	samples := r.Samples
 	if len(samples) == 0 {
 		for i, o := range r.Obs {
